@@ -69,8 +69,39 @@ def propagateH (j : Json) : R Json := do
   return jRes (propagate path (← fOpt getInt j "fmin") (← fOpt getInt j "fmax") (← fInt j "spacing")
     (← fList getCh j "chans"))
 
+def jElemBands (e : Elem) : Json :=
+  match e with
+  | .multiband pb cb => jObj [("params", jList jBand pb), ("bands", jList jBand cb), ("names", jList (fun b => jStr (bandName b)) cb)]
+  | .edfa b => jObj [("params", jList jBand b), ("bands", jList jBand b), ("names", jList (fun b => jStr (bandName b)) b)]
+  | .other => jObj []
+
+/-- `network_from_json` + `Multiband_amplifier.__init__`: `lib` = bands of the library entry (null for an untyped
+element), `amps` = first band of every listed amplifier -/
+def loadH (j : Json) : R Json := do
+  let lib ← fOpt (getList getBand) j "lib"
+  let amps ← fList getBand j "amps"
+  match loadMultiband lib amps with
+  | .ok e => return jObj [("ok", jElemBands e)]
+  | .error _ => return jObj [("err", jStr "ParametersError")]
+
+/-- `set_egress_amplifier` on a multiband element: `existing` amplifier names, f_min-sorted `design` bands, `sel` =
+`[[name, band]]` of the varieties selected per amplifier; also the library `dedup` (`_update_band`) of a member list -/
+def designH (j : Json) : R Json := do
+  let existing ← fList getStr j "existing"
+  let design ← fList getBand j "design"
+  let sel ← fList (fun x => do
+      match ← getArr x with
+      | [n, b] => return ((← getStr n), (← getBand b))
+      | _ => throw "name/band pair expected") j "sel"
+  let e := designMultiband existing design (fun n => (sel.lookup n).getD { fmin := 0, fmax := 0 })
+  return jObj [("elem", jElemBands e), ("keys", jList (fun kv => jStr kv.1) (designDict design))]
+
+def dedupH (j : Json) : R Json := do
+  return jList jBand (dedupBands (← fList getBand j "bands"))
+
 def handlers : List (String × Handler) :=
   [("c07.mk", mkH), ("c07.grid", gridH), ("c07.demux", demuxH), ("c07.mux", muxH), ("c07.inband", inBandH), ("c07.filter", filterH),
-   ("c07.common", commonH), ("c07.call", callH), ("c07.propagate", propagateH)]
+   ("c07.common", commonH), ("c07.call", callH), ("c07.propagate", propagateH), ("c07.load", loadH),
+   ("c07.design", designH), ("c07.dedup", dedupH)]
 
 end Gnpy.Drv.C07
